@@ -95,6 +95,10 @@ def _cvc5_solve(smt2, timeout_ms, want_model):
 def solve_one(job):
     """job = (name, smt2, timeout_ms).  returns dict"""
     name, smt2, timeout_ms = job
+    if "/canary#" in name:
+        # vacuity canary: only 'unsat' matters (contract vacuous); one short attempt, no portfolio
+        verdict, info, model = _z3_solve(smt2, 2000, False)
+        return {"name": name, "verdict": verdict if verdict in ("sat", "unsat") else "unknown", "backend": "z3", "s": round(info if isinstance(info, float) else 0.0, 4), "attempts": []}
     stringy = bool(_STRING_HINT.search(smt2))
     # strings: a short z3 attempt first (instant on most), then cvc5 (decides the word equations z3
     # leaves open), then z3 with the full budget
@@ -125,4 +129,4 @@ def solve_all(jobs, workers=None):
     if len(jobs) <= 2 or workers == 1:
         return [solve_one(j) for j in jobs]
     with ProcessPoolExecutor(max_workers=workers) as pool:
-        return list(pool.map(solve_one, jobs, chunksize=max(1, len(jobs) // (workers * 4))))
+        return list(pool.map(solve_one, jobs, chunksize=max(1, min(8, len(jobs) // (workers * 8)))))
